@@ -72,10 +72,11 @@ type LoadConfig struct {
 
 func Load(cfg LoadConfig) (*Engine, error) {
 	pcfg := &packages.Config{
-		Mode:    packages.LoadAllSyntax,
-		Dir:     cfg.RepoDir,
-		Overlay: cfg.Overlay,
-		Env:     append(os.Environ(), cfg.Env...),
+		Mode:       packages.LoadAllSyntax,
+		Dir:        cfg.RepoDir,
+		Overlay:    cfg.Overlay,
+		Env:        append(os.Environ(), cfg.Env...),
+		BuildFlags: []string{"-tags=zzvfsym"},
 	}
 	pkgs, err := packages.Load(pcfg, cfg.Patterns...)
 	if err != nil {
@@ -244,13 +245,13 @@ func (e *Engine) info(fn *ssa.Function) *fnInfo {
 
 // packages whose bodies are never interpreted: reaching them without an intrinsic or redirect is an un-modelled call.
 var deniedPrefixes = []string{
-	"os", "syscall", "net", "reflect", "runtime", "encoding/json", "encoding/xml", "crypto", "hash", "fmt", "time",
-	"log", "regexp", "context", "sync", "internal/poll", "internal/syscall", "internal/reflectlite", "unsafe",
+	"os", "syscall", "net", "reflect", "runtime", "encoding/json", "encoding/xml", "crypto", "hash", "fmt",
+	"log", "context", "sync", "internal/poll", "internal/syscall", "internal/reflectlite", "unsafe",
 	"github.com/gofiber", "github.com/valyala", "github.com/aws", "github.com/pkg/xattr", "golang.org/x/sys",
-	"github.com/oklog", "github.com/google/uuid", "encoding/hex", "encoding/base64", "math/rand", "os/exec", "io/ioutil",
+	"github.com/oklog", "github.com/google/uuid", "math/rand", "os/exec", "io/ioutil",
 	"github.com/Azure", "github.com/nats-io", "github.com/segmentio", "github.com/hashicorp", "github.com/go-ldap",
 	"github.com/DataDog", "github.com/smira", "github.com/urfave", "github.com/versity/scoutfs-go", "mime", "compress",
-	"encoding/binary", "text/template", "html", "database", "archive", "debug", "plugin", "testing", "math/big", "encoding/gob",
+	"text/template", "html", "database", "archive", "debug", "plugin", "testing", "math/big", "encoding/gob",
 }
 
 func deniedPkg(path string) bool {
@@ -1235,12 +1236,23 @@ func (it *strIter) next(p *Path, fr *frame) Value {
 		}
 	}
 	b := strAt(it.s, it.i)
-	if !p.Branch(sym.ULt(b, sym.Byte(0x80)), fr) {
-		panic(unmodelled{"range over a string with a symbolic non-ASCII byte at " + fr.where()})
-	}
 	pos := it.i
-	it.i++
-	return Tuple{sym.True, mkInt(int64(pos)), sym.ZeroExt(b, 32)}
+	if p.Branch(sym.ULt(b, sym.Byte(0x80)), fr) {
+		it.i++
+		return Tuple{sym.True, mkInt(int64(pos)), sym.ZeroExt(b, 32)}
+	}
+	// non-ASCII lead byte: decode with the real unicode/utf8 code
+	dec := p.eng.FindFunc("unicode/utf8.DecodeRuneInString")
+	res := p.callFn(fr, dec, []Value{strSlice(it.s, pos, n)}, nil).(Tuple)
+	size := termOf(res[1])
+	k := int64(1)
+	if size.IsConst() {
+		k = size.Signed()
+	} else {
+		k = p.DecideValue(size, 1, 4, fr)
+	}
+	it.i += int(k)
+	return Tuple{sym.True, mkInt(int64(pos)), res[0]}
 }
 
 func (p *Path) rangeIter(fr *frame, x Value, t types.Type) iterator {
